@@ -224,11 +224,14 @@ func (r *gatewayController) buildCanaryWeightHttpRoutes(rules []gatewayv1beta1.H
 	for i := range rules {
 		rule := rules[i]
 		_, stableRef := getServiceBackendRef(rule, r.conf.StableService)
+		_, canaryRef := getServiceBackendRef(rule, r.conf.CanaryService)
 		if stableRef == nil {
-			desired = append(desired, rule)
+			// a rule that only targets the canary Service was generated by an earlier match step: drop it
+			if canaryRef == nil {
+				desired = append(desired, rule)
+			}
 			continue
 		}
-		_, canaryRef := getServiceBackendRef(rule, r.conf.CanaryService)
 		if canaryRef == nil {
 			canaryRef = stableRef.DeepCopy()
 			canaryRef.Name = gatewayv1beta1.ObjectName(r.conf.CanaryService)
